@@ -201,6 +201,9 @@ def main(argv=None):
         inconclusive.append(f"worker shard={b['shard']} {b['status']}: {(b.get('stderr') or '')[-600:]}")
     if m["harness_errors"]:
         inconclusive.append(f"{len(m['harness_errors'])} harness error(s), first: {m['harness_errors'][0]}")
+    wd = m["counters"].get("watchdog_timeouts", 0)
+    if wd > max(2, 0.01 * m["counters"].get("evaluations", 0)):
+        inconclusive.append(f"{wd} cases hit the per-case watchdog")
     if hasattr(module, "required"):
         inconclusive.extend(module.required(m, a.tier) or [])
 
